@@ -1003,6 +1003,19 @@ class Job:
         # transparent id updates between shallow copies of a job.
         self.statepoint._jobs.append(self)
 
+    def __copy__(self):
+        # Shallow copies share a single state point instance, through which they
+        # follow each other's id changes. That instance is created lazily, so make
+        # sure it exists before it is shared.
+        try:
+            self.statepoint
+        except Exception:
+            # The state point cannot be loaded (e.g. corrupted job): copy as is.
+            pass
+        result = self.__class__.__new__(self.__class__)
+        result.__setstate__(self.__getstate__())
+        return result
+
     def __deepcopy__(self, memo):
         cls = self.__class__
         result = cls.__new__(cls)
